@@ -1383,6 +1383,61 @@ def rule_instance_attributes(model):
     return r
 
 
+def rule_namespace_function(model):
+    r = RuleResult('C02.R11', '_.namespace(k=v, ...) makes ONE new source '
+                   'that holds the keywords as given: the helper hands its '
+                   'keyword dictionary on as keywords (`self(**kw)`), not '
+                   'as a positional object (which is pushed as a source of '
+                   'its own, so callables in it are auto-called on lookup); '
+                   'the instance wrapper remembers only values it found')
+    ns = model.func('DT_Util', 'namespace')
+    kwn = ns.node.args.kwarg.arg if ns.node.args.kwarg else None
+    calls = [c for c in own_nodes(ns.node) if isinstance(c, ast.Call)
+             and isinstance(c.func, ast.Name) and c.func.id in ns.params()]
+    if kwn is None or not calls:
+        raise AnalysisError('DT_Util.namespace: call of the namespace '
+                            'object with the keywords not found')
+    for c in calls:
+        ok = any(k.arg is None and norm(k.value) == kwn
+                 for k in c.keywords) and not any(
+            norm(a) == kwn for a in c.args)
+        r.instance(ns.where, c, 'keywords handed on as keywords' if ok
+                   else 'HANDED ON AS ONE OBJECT')
+        if not ok:
+            r.finding(ns.where, c, f'`{norm(c)}`: the keywords of '
+                      '_.namespace() are not passed on as keywords: the '
+                      'new namespace wraps them differently, so values in '
+                      'it are called / rendered on lookup before an '
+                      'expression sees them', node=c, ctx=ns)
+    # the per-instance cache of the attribute wrapper holds found values
+    gi = model.func('_DocumentTemplate', 'InstanceDict.__getitem__')
+    n = 0
+    for x in own_nodes(gi.node):
+        if isinstance(x, ast.Assign) and any(
+                isinstance(t, ast.Subscript) and 'cache' in norm(t.value)
+                for t in x.targets):
+            n += 1
+            v = x.value
+            defs = [v]
+            if isinstance(v, ast.Name):
+                defs = [d for d in model.local_defs(gi, v.id)
+                        if isinstance(d, ast.AST)] or [v]
+            ok = all(isinstance(d, ast.Call) for d in defs)
+            r.instance(gi.where, x, 'a value that was found' if ok
+                       else 'NOT A LOOKED-UP VALUE')
+            if not ok:
+                r.finding(gi.where, x, 'the attribute wrapper caches '
+                          'something other than a value it looked up (a '
+                          '"not there" marker): a name the object gains '
+                          'later in the same rendering stays undefined '
+                          'here and falls through to lower sources',
+                          node=x, ctx=gi)
+    if n < 1:
+        raise AnalysisError('InstanceDict.__getitem__: cache store not '
+                            'found')
+    return r
+
+
 def rule_block_namespace(model):
     r = RuleResult('C02.R8', 'the mapping dtml-in lays over the namespace '
                    'answers only its own names (keys with a dash, or keys '
@@ -1395,7 +1450,8 @@ def rule_block_namespace(model):
 INLINED_VIEW = True
 RULES_PLAIN = [rule_push_order, rule_ctor, rule_call_flag, rule_direction,
                rule_scoping, rule_instance_state, rule_keyword_namespace,
-               rule_block_namespace, rule_layers, rule_instance_attributes]
+               rule_block_namespace, rule_layers, rule_instance_attributes,
+               rule_namespace_function]
 RULES = [_inl(r_) for r_ in RULES_PLAIN] if INLINED_VIEW else RULES_PLAIN
 EXPLANATION = (
     'Forward dataflow of the precedence class of every namespace push along '
